@@ -145,7 +145,10 @@ class VerifEnv:
             I.p.oblige(f'{cname}/pre#{k}', 'pre@call', fi.node.lineno, g, note=src, func=fi.ident)
         if c.returns is None and not c.modifies:
             raise Unsupported(f'contract {c.id} has no declared result sort; cannot be used as a callee')
-        res = sorts.build(I, c.returns, 'ret_' + fi.name) if c.returns is not None else None
+        if isinstance(c.returns, sorts.Expr):      # result given as an expression over the callee's parameters
+            res = I.eval_src(c.returns.src, fr)
+        else:
+            res = sorts.build(I, c.returns, 'ret_' + fi.name) if c.returns is not None else None
         oldf = Frame(fi, fi.module, {k: snapshot(v) for k, v in fr.locals.items()})
         for mname in c.modifies:
             lib.fresh_like(I, fr.locals[mname], 'mod_' + mname)      # in place for symbolic lists
@@ -369,6 +372,10 @@ def verify(env, c, thorough=False):
             if rr == z3.unknown:
                 seen_unknown = True
         if not seen_sat and not seen_unknown:
+            import os as _os
+            if _os.environ.get('PYVC_DEBUG_VACUOUS'):
+                for ob in posts[:2]:
+                    print('VACUOUS PC:', [str(t)[:300] for t in ob.pc])
             res.unsupported.append('vacuous: no feasible path reaches the postcondition (contradictory requires?)')
         res.reach = dict(feasible_post_path=seen_sat, unknown=seen_unknown)
     elif not res.unsupported:
